@@ -8,11 +8,13 @@ CONSTANTS
   MaxUpd = 2
   Clock0 = 1
   MaxClock = 2
+  CasRaw = TRUE
   ThinK = @@THINK@@
   ThinR = @@THINR@@
+  ThinA = @@THINA@@
 INIT Init
 NEXT Next
 VIEW View
 INVARIANTS TypeOK InvTokenUnique InvLeftHasNoTokens InvNormal EmitPath
-PROPERTIES StepRules EmitResolving
+PROPERTIES StepRules SnapshotsImmutable ReaderSeesLatest EmitResolving
 CHECK_DEADLOCK FALSE
